@@ -656,7 +656,482 @@ def run_fit(ctx, pg):
 
 
 # ---------------------------------------------------------------------------------------------
-STREAMS = [('links.values', run_values), ('links.special', run_special), ('links.check_y', run_check_y), ('links.fit', run_fit)]
+# dtype axis: the same VALUES arriving in another numeric dtype / container
+# ---------------------------------------------------------------------------------------------
+# The property speaks about means and targets as numbers; NumPy carries them in a dtype, and integer dtypes have
+# arithmetic of their own (wrap-around of unsigned / small signed integers, value-based casting of `levels - mu`,
+# float16 results for 8-bit inputs).  Streams 5-7 run the value-level statements of streams 1, 3 and 4 over the dtypes
+# in which a user can hand over the same values.  The model side is unchanged (checkY / linkFn are functions of the
+# values): the exact values are sent to the driver as rationals / float64 bit patterns.
+DT_FLOAT = ['float64', 'float32', 'float16']
+DT_INT = ['int8', 'int16', 'int32', 'int64']
+DT_UINT = ['uint8', 'uint16', 'uint32', 'uint64']
+DT_OTHER = ['bool', 'object', 'list']
+ALL_DT = DT_FLOAT + DT_INT + DT_UINT + DT_OTHER
+DT_GROUPS = [DT_FLOAT[1:], DT_INT, DT_UINT, DT_OTHER]
+LEVELS_DT = [1, 2, 5, 17, 30, 300]      # 30, 300: products mu * (levels - mu) beyond the range of 8-bit integers
+INT_EDGES = [127, 128, 255, 256, 32767, 32768, 65535, 65536, 2 ** 24, 2 ** 31 - 1, 2 ** 31, 2 ** 32 - 1, 2 ** 32,
+             2 ** 53, 2 ** 63 - 1, 2 ** 63, 2 ** 64 - 1]
+NEG_EDGES = [-1, -2, -128, -129, -32768, -2 ** 31, -2 ** 63]
+
+
+def _representable(v, dt):
+    """is the exact value v (int / Fraction) carried without change by dtype / container dt?"""
+    v = common.Fraction(v)
+    if dt in DT_FLOAT:
+        try:
+            f = float(v)
+        except OverflowError:
+            return False
+        if common.Fraction(f) != v:
+            return False
+        with np.errstate(all='ignore'):
+            g = float(np.dtype(dt).type(f))
+        return math.isfinite(g) and g == f
+    if dt in DT_INT or dt in DT_UINT:
+        ii = np.iinfo(dt)
+        return v.denominator == 1 and ii.min <= v <= ii.max
+    if dt == 'bool':
+        return v in (0, 1)
+    if dt == 'object':
+        return v.denominator == 1
+    if dt == 'list':
+        return v.denominator == 1 or common.Fraction(float(v)) == v
+    return False
+
+
+def _mk(vals, dt):
+    """the values as an array of dtype dt / an object array of Python ints / a Python list"""
+    if dt in DT_FLOAT:
+        return np.array([float(v) for v in vals], dtype=dt)
+    if dt in DT_INT or dt in DT_UINT:
+        return np.array([int(v) for v in vals], dtype=dt)
+    if dt == 'bool':
+        return np.array([bool(int(v)) for v in vals], dtype=bool)
+    if dt == 'object':
+        return np.array([int(v) for v in vals], dtype=object)
+    return [int(v) if common.Fraction(v).denominator == 1 else float(v) for v in vals]
+
+
+def _carriers(vals, dts=ALL_DT):
+    return [dt for dt in dts if all(_representable(v, dt) for v in vals)]
+
+
+# ---- stream 5: link / mu / gradient on non-float64 arrays ------------------------------------
+def dtype_points(name, L, fn):
+    """exact arguments (ints, dyadic fractions) of the open domain / the range"""
+    F = common.Fraction
+    ints = [1, 2, 3, 5, 7, 11, 100] + INT_EDGES + [1000, 30000]
+    fracs = [F(1, 8), F(1, 2), F(3, 4), F(5, 2), F(33, 8)]
+    if fn == 'mu':
+        if name == 'identity':
+            return [0] + ints + NEG_EDGES + fracs + [-f for f in fracs]
+        if name in ('log', 'logit'):
+            return list(range(-20, 21)) + fracs + [-f for f in fracs] + [-30, 30]
+        if name == 'inverse':
+            return ints + NEG_EDGES + fracs + [-f for f in fracs]
+        return ints + fracs
+    if name == 'identity':
+        return [0] + ints + NEG_EDGES + fracs + [-f for f in fracs]
+    if name == 'logit':
+        if L <= 40:
+            ks = list(range(1, L))
+        else:
+            ks = sorted(set(list(range(1, 12)) + list(range(L // 2 - 6, L // 2 + 7)) + list(range(L - 11, L)) + list(range(1, L, 13))))
+        return ks + [F(k, 8) for k in range(1, 8 * min(L, 3)) if k % 8] + [L - F(1, 8), L - F(1, 2)]
+    return ints + fracs
+
+
+def run_dtype_values(ctx, pg):
+    from pygam.links import LINKS
+    from pygam.distributions import BinomialDist
+    st = 'links.dtype_values'
+    ctx.stream(st, 'Link.link / mu / gradient on float32/16, int8..64, uint8..64, bool arrays vs the Float model at the same '
+                   'values (precision of the result dtype)')
+    jobs, ops = [], []
+    for name in LINK_NAMES:
+        for L in (LEVELS_DT if name == 'logit' else [1]):
+            for fn in FNS:
+                pts = dtype_points(name, L, fn)
+                for dt in ALL_DT[1:-2]:             # arrays with a numeric dtype other than float64
+                    vals = [v for v in pts if _representable(v, dt)]
+                    if dt == 'bool' and fn != 'mu' and name != 'identity':
+                        vals = [v for v in vals if v != 0]
+                    if not vals:
+                        continue
+                    jobs.append((name, L, fn, dt, vals))
+                    ops.append('C07 val %s %s %s %s' % (fn, name, common.f2bits(float(L)), ' '.join(common.f2bits(float(v)) for v in vals)))
+    outs = ctx.driver.run(ops)
+    for (name, L, fn, dt, vals), out in zip(jobs, outs):
+        link = LINKS[name](); dist = BinomialDist(levels=L)
+        if out == 'bad-op' or len(out.split()) != len(vals):
+            ctx.disagree(st, dict(link=name, levels=L, fn=fn, dtype=dt), None, out, 'driver did not answer')
+            continue
+        model = [common.bits2f(t) for t in out.split()]
+
+        def ev(vs):
+            try:
+                with np.errstate(all='ignore'):
+                    r = np.asarray(_impl(link, fn)(_mk(vs, dt), dist))
+                if r.shape != (len(vs),):
+                    return 'shape %r' % (r.shape,), None
+                return r.astype(float), r.dtype
+            except Exception as e:  # noqa
+                return type(e).__name__, None
+        got, rd = ev(vals)
+        ctx.count('dtype_values: result dtype', '%s -> %s' % (dt, rd))
+        for i, (v, mv) in enumerate(zip(vals, model)):
+            sig = dict(link=name, levels=L, fn=fn, dtype=dt, x=common.q2s(v))
+            ctx.case(st, sig, nontrivial=(name != 'identity'))
+            x = float(v)
+            if isinstance(got, str):
+                ok, iv = False, got
+            else:
+                iv = float(got[i])
+                # working precision: NumPy evaluates log / exp / power of 8-bit (16-bit) integers and bool in float16 (float32),
+                # also where the final result is wider (value-based casting of `levels`)
+                wp = np.dtype({'float16': 'float16', 'int8': 'float16', 'uint8': 'float16', 'bool': 'float16',
+                               'float32': 'float32', 'int16': 'float32', 'uint16': 'float32'}.get(dt, 'float64'))
+                if rd.kind == 'f' and rd.itemsize < wp.itemsize:
+                    wp = rd
+                if rd.kind != 'f' or name == 'identity':
+                    wp = np.dtype('float64')        # integer results (identity link): exact
+                fi = np.finfo(wp)
+                tol = {2: 4e-3, 4: 5e-7}.get(wp.itemsize, TOL)
+                if fn == 'mu' and name in ('log', 'logit') and x > math.log(float(fi.max) / L) - 1:
+                    ctx.count('dtype_values: exp overflows the working precision (not compared)', str(wp))
+                    continue
+                if math.isfinite(mv) and abs(mv) > float(fi.max) / 4:
+                    ctx.count('dtype_values: value beyond the range of the working precision (not compared)', str(wp))
+                    continue
+                scale = 0.0
+                if name == 'logit' and fn == 'link' and 0 < x < L:
+                    scale = abs(math.log(x)) + abs(math.log(L - x))
+                ok = _same(iv, mv, scale, tol=tol)
+                if not ok and wp.itemsize < 8 and math.isfinite(mv) and math.isfinite(iv):
+                    # results (and intermediate powers / exponentials) in the subnormal range of the working precision
+                    ok = abs(iv - mv) <= tol * (abs(mv) + scale) + 4 * L * float(fi.smallest_subnormal)
+            if ok:
+                continue
+            if name == 'logit' and fn == 'grad' and (dt in DT_INT or dt in DT_UINT or dt == 'bool') and not isinstance(iv, str):
+                # UNCHANGED TREE: LogitLink.gradient computes mu * (levels - mu) in the integer dtype of mu, which wraps
+                # around for small dtypes (int8: levels >= 23).  Reported, not counted as a failing input (see DESIGN / final
+                # report); recognised by the wrap itself, every other deviation is still reported.
+                a = _mk([v], dt)
+                with np.errstate(all='ignore'):
+                    wrapped = np.asarray(a * (L - a)).astype(object)[0]
+                if int(wrapped) != int(v) * (L - int(v)):
+                    ctx.count('suspected-defect', 'LogitLink.gradient on integer-dtype mu: mu*(levels-mu) wraps around in %s (levels=%d)' % (dt, L))
+                    continue
+            got2, rd2 = ev([v])
+            iv2 = got2 if isinstance(got2, str) else float(got2[0])
+            if not isinstance(iv2, str) and not isinstance(iv, str) and _same(iv2, mv, 0.0, tol=10 * tol):
+                continue
+            ref = float(_call(link, fn, [x], dist)[0])        # the real code on the float64 version of the same value
+            case = dict(call='pygam.links.LINKS[%r]().%s(np.array([%s], dtype=%r), BinomialDist(levels=%d))' % (
+                name, {'link': 'link', 'mu': 'mu', 'grad': 'gradient'}[fn], common.q2s(v), dt, L),
+                link=name, levels=L, fn=fn, dtype=dt, x=common.q2s(v))
+            if _same(ref, mv, 0.0, tol=10 * TOL) or (isinstance(iv2, str)):
+                ctx.fail(st, dict(link=name, levels=L, fn=fn, dtype=dt), case,
+                         observed=dict(value=iv2 if isinstance(iv2, str) else repr(iv2), result_dtype=str(rd2)),
+                         expected=dict(float64_evaluation=repr(ref), model=repr(mv)),
+                         oracle='the link / inverse link / gradient at a valid argument does not depend on the dtype that '
+                                'carries it (precision of the result dtype): the float64 evaluation satisfies round trip and '
+                                'derivative, this one differs from it')
+            else:
+                ctx.disagree(st, case, repr(iv2), repr(mv), 'value differs from the Float model (float64 evaluation differs too)')
+
+
+# ---- stream 6: check_y over dtypes ------------------------------------------------------------
+def dtype_target_arrays(rng, name, L, count, lits=()):
+    """exact target arrays (ints and dyadic fractions): inside, boundary, outside, dtype edges"""
+    F = common.Fraction
+    inside = sorted({0, 1, L, max(L - 1, 0), L // 2})
+    wide = [2, 3, L + 1, L + 2, 2 * L, 2 * L + 1, 100] + INT_EDGES + NEG_EDGES
+    wide += [int(v) for v in lits if float(v).is_integer() and abs(v) < 2 ** 62] + [L + int(v) for v in lits if float(v).is_integer() and abs(v) < 2 ** 62]
+    fr = [F(1, 8), L - F(1, 8), F(L, 2) + F(1, 4), L + F(1, 8), L + F(1, 2), -F(1, 8), -F(1, 2), F(2049, 2), F(2 ** 24 + 1, 2)]
+    pool = sorted(set(inside + wide + fr))
+    arrs = [[v] for v in pool]
+    for v in pool:
+        arrs.append([inside[rng.randrange(len(inside))], v, inside[rng.randrange(len(inside))]])
+    for _ in range(count):
+        k = rng.randint(2, 6)
+        a = [rng.choice(inside) for _ in range(k)]
+        if rng.random() < 0.7:
+            a[rng.randrange(k)] = rng.choice(pool)
+        arrs.append(a)
+    return arrs
+
+
+def run_check_y_dtype(ctx, pg):
+    from pygam.links import LINKS
+    from pygam.distributions import DISTRIBUTIONS, BinomialDist
+    from pygam import utils
+    st = 'links.check_y_dtype'
+    ctx.stream(st, 'utils.check_y verdict for the same target values carried by float64/32/16, int8..64, uint8..64, bool, '
+                   'object arrays, lists (1-D and column) vs the checkY model on the exact values')
+    count = 10 if ctx.tier == 'quick' else 300
+    lits = harvest_literals([utils.check_y, utils.get_link_domain, utils.check_array] + [LINKS[k] for k in LINK_NAMES])
+    lits = [v for v in lits if abs(v) <= 1e6]
+    jobs, ops = [], []
+    for name in LINK_NAMES:
+        for L in LEVELS:
+            rng = ctx.subrng('check_y_dtype', name, L)
+            dists = [('binomial(levels=%d)' % L, BinomialDist(levels=L))]
+            if name != 'logit':
+                dn = sorted(DISTRIBUTIONS)[(LEVELS.index(L) + 2) % len(DISTRIBUTIONS)]
+                dists.append((dn, DISTRIBUTIONS[dn]()))
+            for arr in dtype_target_arrays(rng, name, L, count, lits):
+                cs = _carriers(arr)
+                if not cs:
+                    continue
+                ops.append('C07 checky %s %d %s' % (name, L, ' '.join(common.q2s(v) for v in arr)))
+                jobs.append((name, L, dists, arr, cs, rng.random() < 0.25))
+    outs = ctx.driver.run(ops)
+    for (name, L, dists, arr, cs, column), out in zip(jobs, outs):
+        link = LINKS[name]()
+        fl = [float(v) for v in arr]
+        want = 'reject' if oracle_reject(name, L, fl) else 'accept'
+        ctx.count('check_y_dtype: model verdict', out)
+        for dt in cs:
+            for dname, dist in dists:
+                def call():
+                    try:
+                        y = _mk(arr, dt)
+                        if column:
+                            y = np.asarray(y).reshape(-1, 1) if dt != 'list' else [[t] for t in y]
+                        r = utils.check_y(y, link, dist, verbose=False)
+                        same = np.array_equal(np.asarray(r, dtype=float), np.asarray(fl, dtype=float))
+                        return 'accept' if same else 'accept-but-changed'
+                    except ValueError:
+                        return 'reject'
+                    except Exception as e:  # noqa
+                        return type(e).__name__
+                impl = call()
+                ctx.count('check_y_dtype: dtype', dt)
+                sig = dict(link=name, levels=L, dist=dname, y=[common.q2s(v) for v in arr], dtype=dt, column=column)
+                ctx.case(st, sig, nontrivial=(dt != 'float64'),
+                         sample=dict(link=name, levels=L, dist=dname, y=[common.q2s(v) for v in arr], dtype=dt, impl=impl, model=out))
+                if impl == out:
+                    continue
+                impl2 = call()
+                case = dict(call='pygam.utils.check_y(y, LINKS[%r](), %s)' % (name, dname), link=name, levels=L, dist=dname,
+                            y=[common.q2s(v) for v in arr], dtype=dt, column=column,
+                            build='np.array(y, dtype=%r)' % dt if dt not in ('list', 'object') else dt + ' of Python numbers')
+                if impl2 != want:
+                    ctx.fail(st, dict(link=name, levels=L, dtype=dt, verdict=impl2, want=want), case, observed=impl2, expected=want,
+                             oracle='reject (ValueError) iff some target value is outside the closed domain of the link, '
+                                    'whatever numeric dtype carries the values')
+                else:
+                    ctx.disagree(st, case, impl2, out, 'check_y verdict differs from the model although it follows the closed-domain rule')
+
+
+# ---- stream 7: the public entry points that validate y, fresh and fitted models, over dtypes ---
+_ENTERED = []
+_PROBES = {}
+
+
+def _probe(obj):
+    """the same model as an instance of a subclass that records entry into the optimiser (observation only)"""
+    cls = type(obj)
+    if cls not in _PROBES:
+        def _pirls(self, *a, **k):
+            _ENTERED.append(1)
+            return super(_PROBES[cls], self)._pirls(*a, **k)
+        _PROBES[cls] = type(cls.__name__, (cls,), {'_pirls': _pirls, '__module__': cls.__module__})
+    try:
+        obj.__class__ = _PROBES[cls]
+    except Exception:  # noqa
+        pass
+    return obj
+
+
+def _num(v):
+    try:
+        a = np.asarray(v, dtype=float)
+        return a
+    except Exception:  # noqa
+        return None
+
+
+def _entry_outcome(entry, make, fitted, X, y):
+    """(verdict, value) of one public entry point.
+    verdict: 'reject-before-fit' (ValueError, optimiser not entered, model untouched) | 'validated' (y passed validation:
+    a result, or a failure inside / after the optimiser) | name of another exception raised before the optimiser"""
+    import copy
+    try:
+        gam = _probe(copy.deepcopy(fitted) if fitted is not None else make())
+    except Exception as e:  # noqa
+        return 'harness-copy-' + type(e).__name__, None
+    before = (getattr(gam, 'coef_', None), getattr(gam, 'statistics_', None), getattr(gam, 'logs_', None))
+    bcoef = None if before[0] is None else np.array(before[0], copy=True)
+    del _ENTERED[:]
+    val = None
+    try:
+        with contextlib.redirect_stdout(io.StringIO()), contextlib.redirect_stderr(io.StringIO()):
+            if entry == 'fit':
+                gam.fit(X, y)
+                val = _num(getattr(gam, 'coef_', None))
+            elif entry == 'gridsearch':
+                gam.gridsearch(X, y, lam=[0.3, 30.0], progress=False)
+                val = _num(getattr(gam, 'coef_', None))
+            else:
+                val = _num(getattr(gam, entry)(X, y))
+        return 'validated', val
+    except Exception as e:  # noqa
+        after = (getattr(gam, 'coef_', None), getattr(gam, 'statistics_', None), getattr(gam, 'logs_', None))
+        touched = bool(_ENTERED) or any(a is not b for a, b in zip(after, before))
+        if not touched and bcoef is not None:
+            try:
+                touched = not np.array_equal(np.asarray(after[0]), bcoef)
+            except Exception:  # noqa
+                touched = True
+        if touched:
+            return 'validated', type(e).__name__
+        return ('reject-before-fit' if isinstance(e, ValueError) else type(e).__name__), None
+
+
+def _same_result(a, b, entry):
+    """result of an entry point for the dtype version vs the float64 version of the same values"""
+    if isinstance(a, str) or isinstance(b, str) or a is None or b is None:
+        return (isinstance(a, str) and isinstance(b, str) and a == b) or (a is None and b is None)
+    if a.shape != b.shape:
+        return False
+    rtol = 1e-6 if entry in ('fit', 'gridsearch') else 2e-3      # float16 / int8 targets: statistics in half precision
+    with np.errstate(all='ignore'):
+        okn = np.isnan(a) == np.isnan(b)
+        d = np.abs(a - b) <= rtol * (np.abs(b) + np.max(np.abs(b[np.isfinite(b)]), initial=0.0)) + 1e-9
+        eq = (a == b)
+    return bool(np.all(okn & (d | eq | np.isnan(a))))
+
+
+def run_entry(ctx, pg):
+    import pygam
+    from pygam import GAM, s
+    from pygam.distributions import DISTRIBUTIONS, BinomialDist
+    st = 'links.entry'
+    ctx.stream(st, 'fit / gridsearch (fresh and fitted model), score, loglikelihood, deviance_residuals, accuracy with integer-'
+                   'valued targets carried by every dtype: ValueError before the optimiser iff checkY rejects, else the result '
+                   'of the float64 version')
+    n = 12
+    X = np.linspace(0.0, 1.0, n)[:, None]
+    kw = dict(max_iter=2, verbose=False)
+    configs = []
+    for name in LINK_NAMES:
+        for dn in sorted(DISTRIBUTIONS):
+            if name == 'logit' and dn != 'binomial':
+                continue                          # AttributeError for every target (see links.fit)
+            configs.append((name, dn, 1, 'GAM(%s,%s)' % (dn, name),
+                            (lambda dn=dn, name=name: GAM(s(0, n_splines=4), distribution=dn, link=name, **kw))))
+        for L in LEVELS[1:] + [300]:
+            configs.append((name, 'binomial', L, 'GAM(binomial(levels=%d),%s)' % (L, name),
+                            (lambda L=L, name=name: GAM(s(0, n_splines=4), distribution=BinomialDist(levels=L), link=name, **kw))))
+    for cls, name, dn in (('LinearGAM', 'identity', 'normal'), ('LogisticGAM', 'logit', 'binomial'), ('PoissonGAM', 'log', 'poisson'),
+                          ('GammaGAM', 'log', 'gamma'), ('InvGaussGAM', 'log', 'inv_gauss'), ('ExpectileGAM', 'identity', 'normal')):
+        configs.append((name, dn, 1, cls, (lambda cls=cls: getattr(pygam, cls)(s(0, n_splines=4), **kw))))
+    quick = ctx.tier == 'quick'
+    jobs, ops = [], []
+    for name, dn, L, label, make in configs:
+        rng = ctx.subrng('entry', label)
+        has_domain = name in ('log', 'logit')
+        lo = 0 if name == 'logit' else 1
+        hi = L if name == 'logit' else 6
+        base = [rng.randint(lo, hi) for _ in range(n)]
+        if name == 'logit':
+            base[rng.randrange(n)] = 0
+            base[rng.randrange(n)] = L
+            if len(set(base)) < 2:
+                base[0], base[1] = 0, L
+        cand = [('inside', None), ('levels+1', L + 1), ('2levels+1', 2 * L + 1), ('-1', -1), ('255', 255), ('65536', 65536)]
+        if quick and not has_domain:
+            cand = [cand[rng.randrange(len(cand))]]        # every value is inside the domain of these links
+        elif quick:
+            cand = cand[:4] + [cand[4 + rng.randrange(2)]]
+        for tag, v in cand:
+            y = list(base)
+            pos = None
+            if v is not None:
+                pos = rng.randrange(n)
+                y[pos] = v
+            cs = _carriers(y)
+            if quick:
+                pick = []
+                for grp in DT_GROUPS:
+                    g = [d for d in cs if d in grp]
+                    if g:
+                        pick.append(g[rng.randrange(len(g))])
+                if not has_domain and len(pick) > 2:
+                    pick = rng.sample(pick, 2)
+                cs = ['float64'] + pick
+            jobs.append((name, dn, L, label, make, tag, pos, y, base, cs))
+            ops.append('C07 checky %s %d %s' % (name, L, ' '.join(str(int(t)) for t in y)))
+    outs = ctx.driver.run(ops)
+    fitted_cache = {}
+    hook_seen = False
+    for (name, dn, L, label, make, tag, pos, y, base, cs), out in zip(jobs, outs):
+        if label not in fitted_cache:
+            # the fitted model of this configuration: trained on the float64 in-domain targets
+            fm = None
+            try:
+                with contextlib.redirect_stdout(io.StringIO()):
+                    fm = make().fit(X, np.array(base, dtype=float))
+            except Exception as e:  # noqa
+                fm = None
+                ctx.count('entry: reference fit fails (fitted-model entries skipped)', '%s: %s' % (label, type(e).__name__))
+            fitted_cache[label] = fm
+        fm = fitted_cache[label]
+        entries = [('fit', None), ('gridsearch', None)]
+        if fm is not None:
+            entries += [('fit', fm), ('gridsearch', fm), ('score', fm), ('loglikelihood', fm), ('deviance_residuals', fm)]
+            if label == 'LogisticGAM':
+                entries.append(('accuracy', fm))
+        if quick and tag != 'inside' and out == 'accept':
+            entries = [e for e in entries if e[0] != 'gridsearch']
+        want_v = 'reject-before-fit' if oracle_reject(name, L, [float(t) for t in y]) else 'validated'
+        model_v = 'reject-before-fit' if out == 'reject' else ('validated' if out == 'accept' else out)
+        for entry, fitted in entries:
+            ref = None
+            for dt in cs:
+                ename = '%s(%s)' % (entry, 'fitted' if fitted is not None else 'fresh')
+                verdict, val = _entry_outcome(entry, make, fitted, X, _mk(y, dt))
+                hook_seen = hook_seen or bool(_ENTERED)
+                if dt == 'float64':
+                    ref = (verdict, val)
+                ctx.count('entry: outcome', verdict)
+                sig = dict(model=label, entry=ename, target=tag, dtype=dt)
+                ctx.case(st, sig, nontrivial=(dt != 'float64' or tag != 'inside'),
+                         sample=dict(model=label, entry=ename, target=tag, pos=pos, dtype=dt, outcome=verdict, expected=model_v))
+                case = dict(call='%s: %s(X, y)' % (label, ename), link=name, distribution=dn, levels=L, target=tag, pos=pos, dtype=dt,
+                            X='np.linspace(0,1,%d)[:,None]' % n, y=[int(t) for t in y],
+                            fitted_on=None if fitted is None else [int(t) for t in base])
+                if verdict != model_v:
+                    v2, _ = _entry_outcome(entry, make, fitted, X, _mk(y, dt))
+                    if v2 == model_v:
+                        continue
+                    if v2 != want_v:
+                        ctx.fail(st, dict(model=label, entry=ename, target=tag, dtype=dt, outcome=v2), case, observed=v2, expected=want_v,
+                                 oracle='ValueError before the optimiser is entered and with the model untouched iff a target value is '
+                                        'outside the closed domain of the link, whatever dtype carries the targets and whichever entry point')
+                    else:
+                        ctx.disagree(st, case, v2, model_v, 'outcome differs from the model although it follows the closed-domain rule')
+                    continue
+                if verdict == 'validated' and dt != 'float64' and ref is not None and ref[0] == 'validated':
+                    if not _same_result(val, ref[1], entry):
+                        v2, val2 = _entry_outcome(entry, make, fitted, X, _mk(y, dt))
+                        r2v, r2 = _entry_outcome(entry, make, fitted, X, _mk(y, 'float64'))
+                        if v2 == 'validated' and r2v == 'validated' and not _same_result(val2, r2, entry):
+                            def short(t):
+                                return t if (t is None or isinstance(t, str)) else [repr(float(u)) for u in np.ravel(t)[:6]]
+                            ctx.fail(st, dict(model=label, entry=ename, target=tag, dtype=dt, outcome='result differs from float64'), case,
+                                     observed=short(val2), expected=short(r2),
+                                     oracle='accepted targets give the result of the float64 array of the same values')
+    if not hook_seen:
+        ctx.count('entry: optimiser-entry recorder inert (fallback: model attributes only)', 1)
+
+
+# ---------------------------------------------------------------------------------------------
+STREAMS = [('links.values', run_values), ('links.special', run_special), ('links.check_y', run_check_y), ('links.fit', run_fit),
+           ('links.dtype_values', run_dtype_values), ('links.check_y_dtype', run_check_y_dtype), ('links.entry', run_entry)]
 
 
 def run(ctx, only=None):
